@@ -9,18 +9,79 @@ ID = "C08"
 RULE = ("cases = (items, size, hop, pad value, entry point) drawn by Hypothesis "
         "(plus an exhaustively enumerated small grid); oracle = blocks_ref "
         "(slices xs[k*hop:k*hop+size] + tail rule) compared with snapshots taken "
-        "when each block is yielded; non-trivial = at least 2 blocks or a padded "
-        "tail; distinct = distinct case hash")
+        "when each block is yielded; the entry point ranges over containers, iterators, "
+        "Streams, Stream subclasses with their own __iter__ (used once or again), thub and "
+        "objects iterable through __getitem__ only; clause mutated adds a schedule of "
+        "in-place changes to the unread part of the input list, applied before the first "
+        "block and after each complete block, against a step-by-step model; non-trivial = "
+        "at least 2 blocks or a padded tail (mutated: at least 2 blocks and an effective "
+        "change); distinct = distinct case hash")
 ASSUMPTIONS = [
   "block contents are observed through list(block) at yield time (the deque is reused by design)",
   "size >= 1 and hop >= 1 (the property's domain)",
   "Stream.blocks describes the stream's items as of the call: in-place changes to the Stream object made after the call and before the first block is read do not show in the blocks",
+  "the items of a Stream subclass instance are what iterating it yields (its __iter__), as for the library's own StreamTeeHub",
+  "a list changed while its blocks are read is changed only where no produced block reaches yet (index >= k*hop+size after block k): there 'the items at the moment the block is produced' and lazy reading coincide; rewriting items that an earlier block already covers is not judged",
+  "the end of a changing list is decided when a block cannot be completed; nothing is expected after the padded block",
 ]
 
 _items = st.one_of(
   st.integers(-5, 5), st.none(), st.text(max_size=2), st.booleans(),
   st.tuples(st.integers(0, 3), st.integers(0, 3)), st.integers(-64, 64).map(lambda v: v / 8.))
 _pad = st.one_of(st.none(), st.integers(-3, 3), st.just("PAD"), st.just(0.), st.tuples())
+
+
+class _Tagged(Stream):
+  """A user Stream subclass whose iteration transforms the items: its items are what
+  iterating it yields, ("it", v) for every v it was built from."""
+  def __iter__(self):
+    return (("it", v) for v in super(_Tagged, self).__iter__())
+
+
+class _Replay(Stream):
+  """A user Stream subclass that can be iterated more than once (a fresh iterator each time)."""
+  def __init__(self, data):
+    self._items = list(data)
+    super(_Replay, self).__init__(self._items)
+
+  def __iter__(self):
+    return iter(self._items)
+
+
+class _GetItemSeq(object):
+  """Sequence protocol only: sized and indexable, iterable through __getitem__ (no __iter__)."""
+  def __init__(self, data):
+    self.data = data          # kept by reference: the mutation clause changes it in place
+
+  def __len__(self):
+    return len(self.data)
+
+  def __getitem__(self, idx):
+    return self.data[idx]
+
+
+class _GetItemNoLen(object):
+  """Iterable through __getitem__ alone (IndexError ends the iteration)."""
+  def __init__(self, data):
+    self.data = data
+
+  def __getitem__(self, idx):
+    if not isinstance(idx, int):
+      raise TypeError("integer index only")
+    return self.data[idx]
+
+
+class _IterOnly(object):
+  """An iterable that is neither a sequence nor an iterator: __iter__ only."""
+  def __init__(self, data):
+    self.data = data
+
+  def __iter__(self):
+    return iter(self.data)
+
+
+class _ListSub(list):
+  """A list subclass (a user's work list)."""
 
 
 def blocks_ref(xs, size, hop, pad):
@@ -52,7 +113,10 @@ def strat_blocks(tier):
     sh=st.sampled_from(["lt", "lt", "gt", "gt", "eq", "none"]).flatmap(sizehop),
     pad=_pad,
     route=st.sampled_from(["iter", "list", "stream", "stream_method", "gen", "kw_default_pad",
-                           "stream_method_then_changed", "tuple", "deque", "positional", "stream_positional"]),
+                           "stream_method_then_changed", "tuple", "deque", "positional", "stream_positional",
+                           "sub_tagged_method", "sub_tagged_positional", "sub_tagged_function",
+                           "sub_replay_reused", "thub_method", "getitem_seq", "getitem_nolen",
+                           "iter_only_obj", "list_subclass"]),
   ))
 
 
@@ -91,6 +155,46 @@ def _call(case):
   raise AssertionError(route)
 
 
+def _calls(case):
+  """-> (thunks, pad, items): every thunk makes one blocks iterator over a sequence whose
+  items (what iterating it yields) are `items`; the thunks are run and read one after the other."""
+  xs, (size, hop), pad, route = case["xs"], case["sh"], case["pad"], case["route"]
+  kw = {} if hop is None else {"hop": hop}
+  hop_pos = size if hop is None else hop
+  tagged = [("it", v) for v in xs]
+  if route == "sub_tagged_method":      # a Stream subclass with its own __iter__, through the method
+    return [lambda: _Tagged(xs).blocks(size=size, padval=pad, **kw)], pad, tagged
+  if route == "sub_tagged_positional":
+    return [lambda: _Tagged(iter(xs)).blocks(size, hop_pos, pad)], pad, tagged
+  if route == "sub_tagged_function":
+    return [lambda: blocks(_Tagged(xs), size=size, padval=pad, **kw)], pad, tagged
+  if route == "sub_replay_reused":      # a re-iterable Stream subclass: read once, then blocked twice
+    rep = _Replay(xs)
+    def first():
+      if not same(list(rep), list(xs)):
+        raise AssertionError("helper class broken")
+      return rep.blocks(size=size, padval=pad, **kw)
+    return [first, lambda: blocks(rep, size, hop_pos, pad),
+            lambda: rep.blocks(size, hop_pos, pad)], pad, list(xs)
+  if route == "thub_method":            # the library's own __iter__-overriding subclass, both copies
+    hub = audiolazy.thub(list(xs), 2)
+    return [lambda: hub.blocks(size=size, padval=pad, **kw),
+            lambda: blocks(hub, size=size, padval=pad, **kw)], pad, list(xs)
+  if route == "getitem_seq":
+    return [lambda: blocks(_GetItemSeq(list(xs)), size=size, padval=pad, **kw)], pad, list(xs)
+  if route == "getitem_nolen":
+    return [lambda: blocks(_GetItemNoLen(tuple(xs)), size, hop_pos, pad)], pad, list(xs)
+  if route == "iter_only_obj":
+    return [lambda: blocks(_IterOnly(list(xs)), size=size, padval=pad, **kw)], pad, list(xs)
+  if route == "list_subclass":
+    return [lambda: blocks(_ListSub(xs), size=size, padval=pad, **kw)], pad, list(xs)
+  it, pad = _call(case)
+  return [lambda: it], pad, list(xs)
+
+
+_SUBCLASS_ROUTES = ("sub_tagged_method", "sub_tagged_positional", "sub_replay_reused", "thub_method")
+
+
 def same(a, b):
   """Item-wise identity-or-equality with equal types (True != 1 here)."""
   return len(a) == len(b) and all(
@@ -98,25 +202,29 @@ def same(a, b):
 
 
 def run_blocks(case):
-  xs = case["xs"]
   size, hop = case["sh"]
   hop = size if hop is None else hop
-  it, pad = _call(case)
-  got = []
-  for blk in it:
-    got.append(list(blk))
-    if len(got) > len(xs) + 3:
-      raise Violation("more blocks than input items: %r" % got[:5])
+  thunks, pad, xs = _calls(case)
   exp = blocks_ref(xs, size, hop, pad)
-  if len(got) != len(exp):
-    raise Violation("block count %d != %d (len=%d size=%d hop=%d) got=%r exp=%r"
-                    % (len(got), len(exp), len(xs), size, hop, got, exp))
-  for k, (g, e) in enumerate(zip(got, exp)):
-    if not same(g, e):
-      raise Violation("block %d is %r, expected %r (len=%d size=%d hop=%d)"
-                      % (k, g, e, len(xs), size, hop))
+  for use, thunk in enumerate(thunks):
+    got = []
+    for blk in thunk():
+      got.append(list(blk))
+      if len(got) > len(xs) + 3:
+        raise Violation("more blocks than input items: %r" % got[:5])
+    if len(got) != len(exp):
+      raise Violation("block count %d != %d (use %d of the object, len=%d size=%d hop=%d) got=%r exp=%r"
+                      % (len(got), len(exp), use, len(xs), size, hop, got, exp))
+    for k, (g, e) in enumerate(zip(got, exp)):
+      if not same(g, e):
+        raise Violation("block %d is %r, expected %r (use %d of the object, len=%d size=%d hop=%d)"
+                        % (k, g, e, use, len(xs), size, hop))
   regime = "hop<size" if hop < size else ("hop=size" if hop == size else "hop>size")
   labels = [regime, "route:" + case["route"]]
+  if case["route"] in _SUBCLASS_ROUTES:
+    labels.append("Stream subclass with its own __iter__ through .blocks")
+  if case["route"] in ("getitem_seq", "getitem_nolen"):
+    labels.append("iterable through __getitem__ only")
   padded = bool(exp) and len(xs) < (len(exp) - 1) * hop + size
   if padded:
     labels.append("padded tail")
@@ -127,14 +235,191 @@ def run_blocks(case):
   return {"nontrivial": len(exp) >= 2 or padded, "labels": labels}
 
 
+# ---- the input list changes while its blocks are being read -----------------------------------
+# Block k is the items k*hop .. k*hop+size-1 "at the moment it is produced".  The changes made
+# here touch only the part of the list that no produced block covers yet (index >= k*hop+size
+# after block k; the whole list before the first block is read), so every reading of the
+# statement agrees on the result: the blocks of the list as it finally is, each complete block
+# as it was when produced, and the end of the sequence decided when a block cannot be completed.
+
+def _apply(lst, c, op):
+  kind = op[0]
+  if kind == "extend":
+    lst.extend(op[1])
+  elif kind == "truncate":
+    del lst[c + op[1]:]
+  elif kind == "set":
+    if c + op[1] < len(lst):
+      lst[c + op[1]] = op[2]
+  elif kind == "insert":
+    lst.insert(c + op[1], op[2])
+  elif kind == "replace":
+    lst[c:] = op[1]
+  elif kind != "none":
+    raise AssertionError(op)
+
+
+def mutated_ref(xs, size, hop, pad, pre, muts):
+  """-> (expected blocks, number of complete blocks, effects seen) for a list changed by `pre`
+  before the first block is read and by muts[k] right after complete block k was produced."""
+  lst = list(xs)
+  effects = set()
+  def change(c, op, when):
+    before = list(lst)
+    _apply(lst, c, op)
+    if len(lst) > len(before):
+      effects.add("list grew " + when)
+    elif len(lst) < len(before):
+      effects.add("list shrank " + when)
+    elif not same(lst, before):
+      effects.add("unread items replaced " + when)
+  change(0, pre, "before the first block")
+  out = []
+  k = 0
+  while k * hop + size <= len(lst):
+    out.append(lst[k * hop:k * hop + size])
+    if k < len(muts):
+      change(k * hop + size, muts[k], "between blocks")
+    k += 1
+  real = len(lst) - k * hop
+  if real > max(size - hop, 0):
+    out.append(lst[k * hop:] + [pad] * (size - real))
+  final = blocks_ref(lst, size, hop, pad)
+  if len(final) != len(out) or not all(same(a, b) for a, b in zip(out, final)):
+    raise AssertionError("model inconsistent")     # produced blocks are never touched afterwards
+  return out, k, effects
+
+
+_mut_op = st.sampled_from(["extend", "extend", "truncate", "truncate", "set", "insert", "replace",
+                           "none"]).flatmap(lambda kind: {
+  "extend": st.tuples(st.just("extend"), st.lists(_items, min_size=1, max_size=12)),
+  "truncate": st.tuples(st.just("truncate"), st.integers(0, 5)),
+  "set": st.tuples(st.just("set"), st.integers(0, 8), _items),
+  "insert": st.tuples(st.just("insert"), st.integers(0, 5), _items),
+  "replace": st.tuples(st.just("replace"), st.lists(_items, max_size=12)),
+  "none": st.just(("none",)),
+}[kind])
+
+_MUT_ROUTES = ["list", "list", "list_positional", "list_subclass", "iter", "stream", "stream_method",
+               "getitem_seq", "iter_only_obj", "zero_pad_then_blocks"]
+
+
+def strat_mutated(tier):
+  maxlen = 30 if tier == "quick" else 120
+  def sizehop(regime):
+    if regime == "none":
+      return st.tuples(st.integers(1, 6), st.none())
+    if regime == "eq":
+      return st.integers(1, 6).map(lambda s: (s, s))
+    if regime == "lt":
+      return st.integers(2, 6).flatmap(lambda s: st.tuples(st.just(s), st.integers(1, s - 1)))
+    return st.integers(1, 6).flatmap(lambda s: st.tuples(st.just(s), st.integers(s + 1, s + 5)))
+  return st.fixed_dictionaries(dict(
+    xs=st.one_of(st.lists(_items, max_size=maxlen),
+                 st.integers(0, maxlen).map(lambda n: list(range(n)))),
+    sh=st.sampled_from(["gt", "gt", "gt", "lt", "lt", "eq", "none"]).flatmap(sizehop),
+    pad=_pad,
+    route=st.sampled_from(_MUT_ROUTES),
+    pre=st.sampled_from(["none", "none", "op"]).flatmap(
+      lambda w: st.just(("none",)) if w == "none" else _mut_op),
+    muts=st.lists(_mut_op, max_size=6),
+  ))
+
+
+def run_mutated(case):
+  xs, (size, hop), pad, route = case["xs"], case["sh"], case["pad"], case["route"]
+  pre = tuple(case["pre"])
+  muts = [tuple(m) for m in case["muts"]]
+  kw = {} if hop is None else {"hop": hop}
+  hop = size if hop is None else hop
+  exp, ncomplete, effects = mutated_ref(xs, size, hop, pad, pre, muts)
+  lst = _ListSub(xs) if route == "list_subclass" else list(xs)
+  if route in ("list", "list_subclass"):
+    it = blocks(lst, size=size, padval=pad, **kw)
+  elif route == "list_positional":
+    it = blocks(lst, size, hop, pad)
+  elif route == "iter":
+    it = blocks(iter(lst), size=size, padval=pad, **kw)
+  elif route == "stream":
+    it = blocks(Stream(lst), size=size, padval=pad, **kw)
+  elif route == "stream_method":
+    it = Stream(lst).blocks(size=size, padval=pad, **kw)
+  elif route == "getitem_seq":
+    it = blocks(_GetItemSeq(lst), size=size, padval=pad, **kw)
+  elif route == "iter_only_obj":
+    it = blocks(_IterOnly(lst), size=size, padval=pad, **kw)
+  elif route == "zero_pad_then_blocks":  # zero_pad with nothing to pad is the sequence itself
+    it = blocks(zero_pad(lst), size=size, padval=pad, **kw)
+  else:
+    raise AssertionError(route)
+  _apply(lst, 0, pre)
+  got = []
+  for k, blk in enumerate(it):
+    got.append(list(blk))
+    if len(got) > len(exp) + 3:
+      raise Violation("blocks keep coming: %r, expected %r (size=%d hop=%d)" % (got, exp, size, hop))
+    if k < ncomplete and k < len(muts):
+      _apply(lst, k * hop + size, muts[k])
+  if len(got) != len(exp):
+    raise Violation("list changed while read: block count %d != %d (xs=%r size=%d hop=%d pre=%r muts=%r) "
+                    "got=%r exp=%r" % (len(got), len(exp), xs, size, hop, pre, muts, got, exp))
+  for k, (g, e) in enumerate(zip(got, exp)):
+    if not same(g, e):
+      raise Violation("list changed while read: block %d is %r, expected %r (size=%d hop=%d pre=%r "
+                      "muts=%r)" % (k, g, e, size, hop, pre, muts))
+  regime = "hop<size" if hop < size else ("hop=size" if hop == size else "hop>size")
+  labels = [regime, "route:" + route] + sorted(effects)
+  if len(exp) > ncomplete:
+    labels.append("padded tail")
+  between = any(e.endswith("between blocks") for e in effects)
+  if between:
+    labels.append("changed between blocks")
+    if regime == "hop>size" and route in ("list", "list_positional", "list_subclass"):
+      labels.append("hop>size, list given directly, changed between blocks")
+  return {"nontrivial": len(exp) >= 2 and bool(effects), "labels": labels}
+
+
 def strat_pad(tier):
   return st.fixed_dictionaries(dict(
     xs=st.lists(_items, max_size=12),
     left=st.one_of(st.none(), st.integers(0, 6)),
     right=st.one_of(st.none(), st.integers(0, 6)),
     zero=st.one_of(st.just("default"), _pad),
-    route=st.sampled_from(["list", "iter", "stream"]),
+    route=st.sampled_from(["list", "iter", "stream", "tuple", "deque", "gen", "getitem_seq", "getitem_seq",
+                           "getitem_nolen", "iter_only_obj", "sub_tagged", "sub_replay_reused", "thub",
+                           "list_subclass", "str"]),
+    style=st.sampled_from(["kw", "kw", "positional", "seq_kw"]),
   ))
+
+
+def _pad_source(route, xs):
+  """-> (object given to zero_pad, its items)"""
+  from collections import deque
+  if route in ("list", "iter", "stream", "tuple", "deque"):
+    return {"list": list, "iter": iter, "stream": Stream, "tuple": tuple, "deque": deque}[route](xs), list(xs)
+  if route == "gen":
+    return (x for x in xs), list(xs)
+  if route == "getitem_seq":
+    return _GetItemSeq(list(xs)), list(xs)
+  if route == "getitem_nolen":
+    return _GetItemNoLen(tuple(xs)), list(xs)
+  if route == "iter_only_obj":
+    return _IterOnly(list(xs)), list(xs)
+  if route == "sub_tagged":
+    return _Tagged(xs), [("it", v) for v in xs]
+  if route == "sub_replay_reused":
+    rep = _Replay(xs)
+    list(rep)
+    return rep, list(xs)
+  if route == "thub":
+    hub = audiolazy.thub(list(xs), 1)
+    return hub, list(xs)
+  if route == "list_subclass":
+    return _ListSub(xs), list(xs)
+  if route == "str":                   # a string is the sequence of its characters
+    text = "".join(x if isinstance(x, str) else repr(x) for x in xs)
+    return text, list(text)
+  raise AssertionError(route)
 
 
 def run_pad(case):
@@ -147,14 +432,25 @@ def run_pad(case):
   zero = 0.
   if case["zero"] != "default":
     kw["zero"] = zero = case["zero"]
-  src = {"list": list, "iter": iter, "stream": Stream}[case["route"]](xs)
-  got = list(zero_pad(src, **kw))
+  route = case.get("route", "list")
+  style = case.get("style", "kw")
+  src, xs = _pad_source(route, xs)
+  if style == "positional":            # every parameter by position (the defaults spelled out)
+    got = list(zero_pad(src, case["left"] or 0, case["right"] or 0, zero))
+  elif style == "seq_kw":
+    got = list(zero_pad(seq=src, **kw))
+  else:
+    got = list(zero_pad(src, **kw))
   exp = [zero] * (case["left"] or 0) + list(xs) + [zero] * (case["right"] or 0)
   if not same(got, exp):
-    raise Violation("zero_pad(%r, %r) -> %r, expected %r" % (xs, kw, got, exp))
-  return {"nontrivial": bool(xs) and bool(kw.get("left") or kw.get("right")),
-          "labels": ["zero_pad", "left" if kw.get("left") else "noleft",
-                     "right" if kw.get("right") else "noright"]}
+    raise Violation("zero_pad(<%s of %r>, %r) [%s] -> %r, expected %r" % (route, xs, kw, style, got, exp))
+  labels = ["zero_pad", "left" if kw.get("left") else "noleft",
+            "right" if kw.get("right") else "noright", "route:" + route, "style:" + style]
+  if route in ("getitem_seq", "getitem_nolen"):
+    labels.append("iterable through __getitem__ only")
+  if len(xs) == 1:
+    labels.append("one item")
+  return {"nontrivial": bool(xs) and bool(kw.get("left") or kw.get("right")), "labels": labels}
 
 
 def grid(tier, shard, nshards):
@@ -171,10 +467,23 @@ def grid(tier, shard, nshards):
 
 CLAUSES = [
   Clause("blocks", strat_blocks, run_blocks, quick=8000, thorough=200000, fuzz={"thorough": 160000},
-         floors={"hop<size": .1, "hop>size": .1, "hop=size": .03, "padded tail": .1},
-         doc="blocks()/Stream.blocks() vs blocks_ref on heterogeneous items"),
-  Clause("zero_pad", strat_pad, run_pad, quick=1500, thorough=20000,
-         doc="zero_pad == [zero]*left + xs + [zero]*right"),
+         floors={"hop<size": .1, "hop>size": .1, "hop=size": .03, "padded tail": .1,
+                 "Stream subclass with its own __iter__ through .blocks": .05,
+                 "iterable through __getitem__ only": .03},
+         doc="blocks()/Stream.blocks() vs blocks_ref on heterogeneous items, over every kind of iterable "
+             "(containers, iterators, Streams, Stream subclasses with their own __iter__, thub, objects "
+             "iterable through __getitem__ only)"),
+  Clause("zero_pad", strat_pad, run_pad, quick=3000, thorough=40000,
+         floors={"iterable through __getitem__ only": .05, "route:sub_tagged": .015, "route:str": .015},
+         doc="zero_pad == [zero]*left + items + [zero]*right for every kind of iterable (containers, "
+             "iterators, Streams and subclasses, objects iterable through __getitem__ only)"),
+  Clause("mutated", strat_mutated, run_mutated, quick=6000, thorough=100000,
+         floors={"changed between blocks": .15, "list grew between blocks": .08,
+                 "list shrank between blocks": .05,
+                 "hop>size, list given directly, changed between blocks": .03},
+         doc="a list that is extended / truncated / rewritten in its unread part while its blocks are "
+             "being read (before the first block and between blocks): each block is the window of the "
+             "list as it is when the block is produced"),
   Enumerated("grid", grid, run_blocks, shards={"quick": 4, "thorough": 16},
              doc="every (length, size, hop) in a small box"),
 ]
